@@ -182,6 +182,11 @@ func (c20) OnCrash(c fw.Case, cr fw.Crash) fw.Result {
 		// the original itself (or its reprinted form) crashes the host: a C02 event, not a C20 one
 		return fw.Result{Verdict: fw.Inconclusive, Why: fmt.Sprintf("the worker died in stage %q (%s: %s): not an execution of a variant", st, cr.Kind, util.Clip(cr.Message, 200))}
 	}
+	if cr.Kind == "step-budget" {
+		// the effect log's size cap fired: a variant that prints without end
+		return fw.Result{Verdict: fw.Violated, Nontrivial: true, Sig: "behaviour:no-termination",
+			Why: fmt.Sprintf("a variant wrote more than 64 MiB of output (the original finished within %d instructions) [%s]", origBudget, st)}
+	}
 	what := "running"
 	if strings.HasPrefix(st, "variant-analyze") {
 		what = "analysing"
